@@ -664,6 +664,8 @@ class TFLiteSemantic:
                 if offsets[idx] < 0:
                     # Convert negative indexing to positive ones
                     offsets[idx] += input_shape[idx]
+                # An index that still lies outside the dimension is clamped to it (strides are positive here)
+                offsets[idx] = min(max(int(offsets[idx]), 0), input_shape[idx])
             idx += 1
         return offsets
 
